@@ -6,6 +6,7 @@ import (
 	"runtime"
 	"sort"
 	"strings"
+	"sync"
 
 	dbm "github.com/cometbft/cometbft-db"
 )
@@ -17,6 +18,7 @@ import (
 // a hang of the run into a report that names the code which opened the iterator.
 type leakDB struct {
 	dbm.DB
+	mu   sync.Mutex              // a genesis export reads the database from one goroutine per module
 	open map[*leakIter][]uintptr // program counters of the call that opened it (resolved only when needed)
 }
 
@@ -33,7 +35,10 @@ func (l *leakDB) track(it dbm.Iterator, err error) (dbm.Iterator, error) {
 	}
 	li := &leakIter{Iterator: it, db: l}
 	pcs := make([]uintptr, 48)
-	l.open[li] = pcs[:runtime.Callers(2, pcs)]
+	pcs = pcs[:runtime.Callers(2, pcs)]
+	l.mu.Lock()
+	l.open[li] = pcs
+	l.mu.Unlock()
 	return li, nil
 }
 
@@ -46,7 +51,9 @@ func (l *leakDB) ReverseIterator(start, end []byte) (dbm.Iterator, error) {
 }
 
 func (i *leakIter) Close() error {
+	i.db.mu.Lock()
 	delete(i.db.open, i)
+	i.db.mu.Unlock()
 	return i.Iterator.Close()
 }
 
@@ -54,6 +61,8 @@ func (i *leakIter) Close() error {
 // closes them so that the run can go on.
 func (l *leakDB) leaked() []string {
 	var out []string
+	l.mu.Lock()
+	defer l.mu.Unlock()
 	for it, pcs := range l.open {
 		// an exhausted iterator has given the lock back by itself; one that stopped half-way has not
 		if it.Iterator.Valid() {
